@@ -18,6 +18,10 @@ right shape (`shapeOK`: sizes, a row under every flagged first-level cell, liste
                             buffer, each refill is the *next* request (never an earlier one), and the words inspected are
                             among the words consumed: no random word influences two outputs.
 
+  * `lifecycle_releases_all` of the allocation model Model/GaussLife.lean (per-thread MPFR caches, released by the constructor):
+                            every lifecycle over any threads, with any number of samplers and any destruction order,
+                            ends with nothing allocated (+ `release_in_destructor_witness`, the converse).
+
 NOT PROVED (observed on every run instead, which is why the claim is partial): the accesses of the real C++ — heap
 reads/writes of `getNoise`, allocation and release of the barriers and of the nested tables in the constructor and the
 destructor.  These are exercised under AddressSanitizer + UBSan + LeakSanitizer with scripted streams (random, all-zero,
@@ -25,6 +29,7 @@ all-ones, equal to a barrier on a long prefix), request lengths 0…64 and 4096 
 outputs / request counts / request sizes are compared with this model line by line.
 -/
 import NflVerif.Proofs.GaussLoop
+import NflVerif.Proofs.GaussLife
 
 namespace Nfl.C11
 open Nfl.Gauss
@@ -89,5 +94,44 @@ example : (buildLUT 2 4 exBs 0).map (shapeOK 2 4 3) = some true := by decide
 example : ((buildLUT 2 4 exBs 0).bind fun T => getNoise 2 3 T 7 (fun r => [r % 4, 3, 3, 3, 0, 2, 1]) 5).map
     (fun evs => evs.map fun e => (e.req, e.pos, e.used, e.out)) =
     some [(0, 0, 2, 0), (0, 2, 3, 1), (1, 0, 3, 1), (1, 3, 2, 1), (2, 0, 1, 1)] := by decide
+
+/-! ### "release all memory", over threads
+
+Model/GaussLife.lean: the blocks a sampler obtains and releases when constructor, `getNoise` and destructor run on
+arbitrary threads, several samplers are alive at once and threads end in between.  MPFR's caches are per thread (stated
+contract); the code releases them at the end of `precomputeBarrierValues`, i.e. inside the constructor, on the thread
+that filled them.  The harness observes the real allocator (every block obtained inside constructor / getNoise /
+destructor on any thread, `glc` lines) and the driver compares its residue with this model's. -/
+open Nfl.Gauss.Life in
+/-- **every lifecycle releases everything**: whatever the events (any number of samplers, any interleaving, any order
+of destruction), whatever thread each of them runs on, whenever threads end, and however many blocks MPFR caches per
+construction — once every sampler has been destroyed nothing is allocated any more: nothing lost with an ended thread,
+nothing cached on a live one, nothing owned. -/
+theorem lifecycle_releases_all {fill ownB : Nat} {evs : List Evt} {s : St} (nthr nobj : Nat)
+    (h : run .inCtor fill ownB St.init evs = some s) (hd : allDead nobj s = true) :
+    residual nthr nobj s = 0 := by
+  obtain ⟨hl, hc⟩ := run_inv evs inv_init h
+  unfold residual
+  rw [hl, sumTo_zero nthr (fun i _ => hc i), sumTo_zero nobj (allDead_iff.1 hd)]
+
+open Nfl.Gauss.Life in
+/-- … and in between, all that is allocated is what the live samplers own (no thread holds cached blocks). -/
+theorem lifecycle_no_cached_blocks {fill ownB : Nat} {evs : List Evt} {s : St}
+    (h : run .inCtor fill ownB St.init evs = some s) : s.lost = 0 ∧ ∀ t, s.cache t = 0 :=
+  run_inv evs inv_init h
+
+open Nfl.Gauss.Life in
+/-- **converse witness**: were the cache released by the destructor instead, a sampler constructed on a thread that
+ends and destroyed on another thread would lose the constructor's cached blocks (23 here) — although a lifecycle that
+stays on one thread releases everything under that policy too. -/
+theorem release_in_destructor_witness :
+    (run .inDtor 23 3 St.init [⟨0, 0, 1⟩, ⟨1, 0, 0⟩, ⟨3, 0, 1⟩, ⟨2, 0, 0⟩]).map (residual 2 1) = some 23 ∧
+    (run .inDtor 23 3 St.init [⟨0, 0, 1⟩, ⟨1, 0, 1⟩, ⟨2, 0, 1⟩, ⟨3, 0, 1⟩]).map (residual 2 1) = some 0 := by decide
+
+open Nfl.Gauss.Life in
+/-- non-vacuity: two samplers, constructed on a worker that ends and on a fresh thread, sampled on main, destroyed in
+LIFO order on two other threads: the run is accepted, every sampler is dead at the end, the residue is 0. -/
+example : (run .inCtor 23 3 St.init [⟨0, 0, 1⟩, ⟨0, 1, 9⟩, ⟨3, 0, 1⟩, ⟨1, 0, 0⟩, ⟨1, 1, 0⟩, ⟨2, 1, 2⟩, ⟨2, 0, 9⟩]).map
+    (fun s => (allDead 2 s, residual 10 2 s)) = some (true, 0) := by decide
 
 end Nfl.C11
